@@ -195,6 +195,15 @@ def check_one(case, ctx, children=None):
             else:
                 with open(fn, encoding='utf-8') as fh:
                     loaded = ctx.call('fromjson(fileobj)', q, lambda: concepts.Context.fromjson(fh, **kw))
+                verify('fromjson', loaded, loaded_expected)
+                # "file-like object open for reading" also means binary streams (open(.., 'rb'), BytesIO, gzip.open)
+                import io
+                with open(fn, 'rb') as fh:
+                    data = fh.read()
+                    fh.seek(0)
+                    loaded = ctx.call('fromjson(binary file)', q, lambda: concepts.Context.fromjson(fh, **kw))
+                verify('fromjson(binary file)', loaded, loaded_expected)
+                loaded = ctx.call('fromjson(BytesIO)', q, lambda: concepts.Context.fromjson(io.BytesIO(data), **kw))
             verify('fromjson', loaded, loaded_expected)
         elif path == 'literal-string':
             text = ctx.call('tostring(python-literal)', q, context.tostring, 'python-literal')
